@@ -65,6 +65,9 @@ func cmdFunc(args []string) {
 	all := fl.Bool("all", false, "run all solvers")
 	fl.Parse(args)
 	e, err := LoadPackage(filepath.Join(repoRoot, *dir), specFilesFor(*dir))
+	if err == nil && *verbose {
+		fmt.Println("address-taken fields:", e.addrTakenKeys)
+	}
 	if err != nil {
 		fmt.Fprintln(os.Stderr, "load:", err)
 		os.Exit(2)
@@ -106,6 +109,11 @@ func cmdFunc(args []string) {
 		e.DischargeAll(res, res.Axioms, 16)
 		fmt.Printf("  [exec %.1fs, discharge %.1fs]\n", t1.Sub(t0).Seconds(), time.Since(t1).Seconds())
 		summarize(res, *verbose)
+		t2 := time.Now()
+		for _, c := range evalCovers(res, filepath.Join(e.outDir, sanitize(res.Func)), e.preludeText(res, res.Axioms)) {
+			fmt.Println("  VACUOUS", c)
+		}
+		fmt.Printf("  [%d covers %.1fs]\n", len(res.Covers), time.Since(t2).Seconds())
 	}
 	fmt.Println("queries in", e.outDir)
 }
